@@ -8,6 +8,12 @@ OP_MODULES = ["contracts.c05", "contracts.c06", "contracts.c11", "contracts.c13"
 MONITOR_MODULES = ["contracts.c26"]
 
 
+#: C08 (falsy values are ordinary elements) is what every element-level refinement proof says for ALL values at once: the element sort is
+#: uninterpreted (None, 0, False, '', () ... are among its values and truthiness is a free predicate) - the contracts of the element-wise,
+#: aggregating, time-shifting operators and of the subjects are therefore units of C08 too (emitted, counted, buffered, compared, delayed, replayed)
+FALSY_CARRIERS = ("C05", "C06", "C15", "C20", "C21", "C22", "C23")
+
+
 def op_units(prop):
     out = []
     for m in OP_MODULES:
@@ -16,7 +22,8 @@ def op_units(prop):
             # C09 (exceptions of user functions become on_error): every contract whose operator takes a user function is a unit of
             # it - the refinement obligations include "no exception escapes the handler" and the on_error the spec prescribes
             takes_callbacks = prop == "C09" and any("callback" in str(v) for v in c.params.values())
-            if prop in c.props or takes_callbacks:
+            carries = prop == "C08" and any(p in c.props for p in FALSY_CARRIERS)
+            if prop in c.props or takes_callbacks or carries:
                 out.append({"runner": "k1", "module": m, "name": c.name, "prop": prop, "id": c.uid})
     return out
 
@@ -39,7 +46,7 @@ def class_units(prop):
     for m in CLASS_MODULES:
         mod = importlib.import_module(m)
         for c in getattr(mod, "CLASSES", []):
-            if prop in c.props:
+            if prop in c.props or (prop == "C08" and any(p in c.props for p in FALSY_CARRIERS)):
                 out.append({"runner": "classref", "module": m, "name": c.name, "prop": prop, "id": c.uid})
     return out
 
@@ -98,7 +105,7 @@ FAMILIES = {
     "C22": ["replay", "schedobs"],
     "C32": ["schedobs"],
     "C40": ["op", "resrc"],
-    "C08": ["opacity"],
+    "C08": ["opacity", "op", "class", "replay"],
     "C05": ["op"],
     "C06": ["op"],
     "C07": ["slice"],
@@ -264,6 +271,9 @@ def units_for(prop, tier):
     if prop in ("C30", "C31", "C34", "C35"):
         # callee contracts of the trampoline / event-loop schedulers: the queue they keep their items in
         us.append({"runner": "vts", "mode": "queue", "prop": prop, "id": "reactivex/internal/priorityqueue.py::PriorityQueue+ScheduledItem"})
+    if prop in ("C28", "C29"):
+        # the two subclasses the property names (HistoricalScheduler, TestScheduler.schedule_absolute)
+        us.append({"runner": "vtsub", "prop": prop, "id": "reactivex/scheduler/historicalscheduler.py::HistoricalScheduler+TestScheduler.schedule_absolute"})
     if prop in ("C28", "C29", "C30", "C31", "C33", "C34", "C35", "C42"):
         # ... and what invoking / cancelling a scheduled item means (Scheduler.invoke_action, ScheduledItem)
         us.append({"runner": "schedbase", "prop": prop, "id": "reactivex/scheduler/scheduler.py::Scheduler.invoke_action+ScheduledItem"})
@@ -332,6 +342,9 @@ def units_for(prop, tier):
         us.append({"runner": "frame", "mode": "local", "prop": prop, "files": _property_files(prop), "id": f"state-allocation/{prop}"})
         # ... and about the implementation functions: the public entry points reach them with the very arguments (pubapi.py)
         us.append({"runner": "pubapi", "prop": prop, "files": _property_files(prop), "id": f"public-entry-points/{prop}"})
+    if prop == "C44" or prop in STATE_ALLOCATION:
+        # the decorator every operator implementation function goes through (the contracts call `op_(args)(source)`)
+        us.append({"runner": "currywire", "prop": prop, "id": "reactivex/internal/curry.py::curry_flip"})
     cf = _class_files(prop)
     if cf:
         # the class contracts speak about one object: no state in class-level containers shared by all instances (frame.run_class_state)
